@@ -1283,6 +1283,13 @@ func (fx *FnExec) execBuiltin(st *State, in ssa.CallInstruction, b *ssa.Builtin,
 			}
 			e.heapWrite(st, k, store(h, arr, na), arr)
 		}
+		if _, ok := e.c.decls["seqof"]; ok && isString(et) {
+			// abstract-sequence view: append concatenates
+			ha := e.heapGet(st, e.keyElemOf(et, 0, a.L[0]))
+			hb := e.heapGet(st, e.keyElemOf(et, 0, b2.L[0]))
+			hn := e.heapGet(st, e.keyElem(et, 0))
+			e.assume(st, fmt.Sprintf("(= (seqof (select %s %s) 0 %s) (seq_cat (seqof (select %s %s) %s %s) (seqof (select %s %s) %s %s)))", hn, arr, nl, ha, a.L[0], a.L[1], n1, hb, b2.L[0], b2.L[1], n2))
+		}
 		return &Val{L: []string{arr, "0", nl}}
 	case "delete":
 		m := c.Args[0].Type().Underlying().(*types.Map)
